@@ -7,6 +7,7 @@ import (
 	"strings"
 	"time"
 
+	zvatomic "berty.tech/go-ipfs-log/zvatomic"
 	"berty.tech/go-ipfs-log/zvsync"
 
 	"verif/engine/sched"
@@ -230,6 +231,21 @@ func litmusPrograms() []litmus {
 				}
 			}
 			return inst([]func(){prod, cons}, func() string { return "done" })
+		}},
+		{name: "atomic-load-then-store-loses-an-update", outcomes: []string{"1", "2"}, make: func() *sched.Instance {
+			var n zvatomic.Int64
+			inc := func() { n.Store(n.Load() + 1) }
+			return inst([]func(){inc, inc}, func() string { return fmt.Sprint(n.Load()) })
+		}},
+		{name: "atomic-add-loses-nothing", outcomes: []string{"2"}, make: func() *sched.Instance {
+			var n zvatomic.Int64
+			inc := func() { n.Add(1) }
+			return inst([]func(){inc, inc}, func() string { return fmt.Sprint(n.Load()) })
+		}},
+		{name: "two-atomics-are-not-one", outcomes: []string{"a/A", "a/B", "b/A", "b/B"}, make: func() *sched.Instance {
+			var id, key zvatomic.Value
+			set := func(i, k string) func() { return func() { key.Store(k); id.Store(i) } }
+			return inst([]func(){set("a", "A"), set("b", "B")}, func() string { return fmt.Sprint(id.Load(), "/", key.Load()) })
 		}},
 		{name: "trylock-and-tryacquire", outcomes: []string{"1", "2"}, make: func() *sched.Instance {
 			var mu zvsync.Mutex
